@@ -4,7 +4,8 @@
               handle classes of handles.hpp, for the four mutex kinds;
      Deferred (Proofs/DeferredProofs.v): deferred_guarded;
      Deferred2 (Proofs/Deferred2Proofs.v): two deferred_guarded objects A, B of one type, with modification
-              functions of A that submit a modification to B while they run (x = false: A, x = true: B).
+              functions of A that submit a modification to B - or to A itself - while they run (x = false: A,
+              x = true: B; objls x = the pcs of all threads in x's automaton, objpcs x l = those of one thread).
    The Wrapper theorems quantify over the configuration cf, any number of threads with any programs over the
    whole API and every schedule (R cf progs s).  Vocabulary (WrapperProofs): lx / lsh = exclusive / shared locks
    of the wrapper's mutex owned by a thread (live handles, guards of read / modify / load / store);
@@ -103,7 +104,7 @@ Theorem deferred2_no_mod_starts : forall m progs (s : sys Deferred2Model.glob2 D
   Deferred2Proofs.R2 m progs s ->
   (1 <= DeferredProofs.shl (DeferredProofs.locof (Deferred2Proofs.objls x (thr s)) t))%nat ->
   nth_error (thr s) u = Some l -> Deferred2Model.tstep2 u c (gl s) l = Some (g', l', es) ->
-  DeferredProofs.holdsX (DeferredModel.at_ (Deferred2Proofs.objl x l')) = false.
+  forall lx, In lx (Deferred2Proofs.objpcs x l') -> DeferredProofs.holdsX (DeferredModel.at_ lx) = false.
 Proof. exact Deferred2Proofs.no_exclusive_starts2. Qed.
 (* a functor running on x owns x's mutex exclusively; nobody shares x, no other window on x's payload is open *)
 Theorem deferred2_exclusive : forall m progs (s : sys Deferred2Model.glob2 Deferred2Model.loc2) x t,
@@ -166,7 +167,7 @@ Proof. vm_compute. repeat split; auto. Qed.
 Definition nested_state :=
   run Deferred2Model.glob2 Deferred2Model.loc2 Deferred2Model.tstep2
       (Deferred2Model.init2 0 [[Deferred2Model.OnB (DeferredModel.LockShared 0)];
-                               [Deferred2Model.Nested 12 (DeferredModel.ModifyDetach 1) false 2]])
+                               [Deferred2Model.Nested 12 (DeferredModel.ModifyDetach 1) false false 2]])
       (rep 0 3 ++ rep 1 6).
 Example nested_submission_queued_behind_reader :
   (1 <= DeferredProofs.shl (DeferredProofs.locof (Deferred2Proofs.objls true (thr nested_state)) 0))%nat /\
